@@ -26,7 +26,7 @@ def constructor_of(w, adt):
     return out
 
 
-def run(ctx, w):
+def _run(ctx, w):
     A = w.anchors
     term_ty = A["terminal_ty"]
     fields = A["terminal_fields"]
@@ -179,3 +179,10 @@ def run(ctx, w):
     ctx.floor("H4", 2, "Vt fields")
     # the Ris handler cannot reach the parser: it only receives &mut Terminal
     ctx.note("Ris handler(s): %s; reachable: %d functions" % (handlers, len(reach)))
+
+
+def run(ctx, w):
+    _run(ctx, w)
+    # the commands of this property must first of all be DECODED as specified (selector values, parameter slots, finals)
+    from rules import c03, shared
+    shared.embed(ctx, w, c03.dispatch_rules)
